@@ -254,15 +254,15 @@ public:
 
 		// special case handling
 		if (raw_exp == 0xFFu) { // special cases
-			if (raw == 1ul) {
-				// 1.11111111.00000000000000000000001 signalling nan
-				// 0.11111111.00000000000000000000001 signalling nan
+			if (raw != 0ul && (raw & 0x0040'0000ul) == 0ul) {
+				// 1.11111111.0xxxxxxxxxxxxxxxxxxxxxx signalling nan: quiet bit clear, any non-zero payload
+				// 0.11111111.0xxxxxxxxxxxxxxxxxxxxxx signalling nan
 				setnan(NAN_TYPE_SIGNALLING);
 				return *this;
 			}
-			if (raw == 0x0040'0000ul) {
-				// 1.11111111.10000000000000000000000 quiet nan
-				// 0.11111111.10000000000000000000000 quiet nan
+			if ((raw & 0x0040'0000ul) != 0ul) {
+				// 1.11111111.1xxxxxxxxxxxxxxxxxxxxxx quiet nan: quiet bit set, any payload
+				// 0.11111111.1xxxxxxxxxxxxxxxxxxxxxx quiet nan
 				setnan(NAN_TYPE_QUIET);
 				return *this;
 			}
@@ -413,15 +413,15 @@ public:
 		uint64_t raw     = decoder.parts.fraction;
 #endif // BIT_CAST_IS_CONSTEXPR
 		if (raw_exp == 0x7FFul) { // special cases
-			if (raw == 1ull) {
-				// 1.11111111111.0000000000000000000000000000000000000000000000000001 signalling nan
-				// 0.11111111111.0000000000000000000000000000000000000000000000000001 signalling nan
+			if (raw != 0ull && (raw & 0x0008'0000'0000'0000ull) == 0ull) {
+				// 1.11111111111.0xxxxxxxxxxxxxxxxxxxxxxxxxxxxxxxxxxxxxxxxxxxxxxxxxxx signalling nan: quiet bit clear, any non-zero payload
+				// 0.11111111111.0xxxxxxxxxxxxxxxxxxxxxxxxxxxxxxxxxxxxxxxxxxxxxxxxxxx signalling nan
 				setnan(NAN_TYPE_SIGNALLING);
 				return *this;
 			}
-			if (raw == 0x0008'0000'0000'0000ull) {
-				// 1.11111111111.1000000000000000000000000000000000000000000000000000 quiet nan
-				// 0.11111111111.1000000000000000000000000000000000000000000000000000 quiet nan
+			if ((raw & 0x0008'0000'0000'0000ull) != 0ull) {
+				// 1.11111111111.1xxxxxxxxxxxxxxxxxxxxxxxxxxxxxxxxxxxxxxxxxxxxxxxxxxx quiet nan: quiet bit set, any payload
+				// 0.11111111111.1xxxxxxxxxxxxxxxxxxxxxxxxxxxxxxxxxxxxxxxxxxxxxxxxxxx quiet nan
 				setnan(NAN_TYPE_QUIET);
 				return *this;
 			}
